@@ -49,7 +49,7 @@ MANIFEST_ENTRY = {
              "`!constant`, and on arm 64-bit/8-bit types and 5-parameter functions) are switched off in the generators."),
     "technique": "runtime monitoring: exception class at the API boundary over generated valid C / C3 / IR text",
 }
-SHARD_TIMEOUT = {"quick": 1200, "thorough": 4 * 3600}
+SHARD_TIMEOUT = {"quick": 600, "thorough": 4 * 3600}
 
 # finding key -> (cdeclgen/c28gen switches, cexprgen keys)
 AVOID_MAP = {
@@ -82,9 +82,9 @@ def EXHAUSTIVE(tier):
 
 def plan(tier, seed, avoid):
     if tier == "quick":
-        n = {"c": (16, 30), "cx": (4, 120), "c3": (6, 40), "ir": (6, 40)}
+        n = {"c": (10, 30), "cx": (2, 200), "c3": (4, 40), "ir": (4, 40)}
     else:
-        n = {"c": (40, 500), "cx": (8, 1500), "c3": (12, 600), "ir": (12, 600)}
+        n = {"c": (40, 500), "cx": (8, 2000), "c3": (12, 600), "ir": (12, 600)}
     specs = []
     for part, (shards, cases) in n.items():
         specs += [{"part": part, "shard": i, "cases": cases} for i in range(shards)]
@@ -93,9 +93,9 @@ def plan(tier, seed, avoid):
 
 def floors(tier):
     big = tier != "quick"
-    return {"evaluations": 20000 if big else 900,
-            "observed.inputs.c": 8000 if big else 250, "observed.inputs.cx": 5000 if big else 250,
-            "observed.inputs.c3": 3000 if big else 120, "observed.inputs.ir": 3000 if big else 120,
+    return {"evaluations": 20000 if big else 700,
+            "observed.inputs.c": 8000 if big else 200, "observed.inputs.cx": 5000 if big else 250,
+            "observed.inputs.c3": 3000 if big else 100, "observed.inputs.ir": 3000 if big else 100,
             "observed.outcome.c:ok": 100, "observed.outcome.c3:ok": 50, "observed.outcome.ir:ok": 50,
             "observed.outcome.cx:ok": 100, "observed.opt": 4}
 
@@ -129,16 +129,52 @@ def classify(fn):
         return ("internal", site, "%s: %s" % (type(e).__name__, str(e)[:160]))
 
 
-def gcc_valid(src):
-    try:
-        p = subprocess.run(["gcc", "-fsyntax-only", "-std=c99", "-pedantic-errors", "-x", "c", "-"], input=src,
-                           capture_output=True, text=True, timeout=120)
-    except subprocess.TimeoutExpired:
-        return None, "timeout"
-    if p.returncode == 0:
-        return True, ""
-    why = [ln.split("error:")[1].strip()[:50] for ln in p.stderr.split("\n") if "error:" in ln]
-    return False, (why[0] if why else "?")
+def gcc_valid_batch(sources, tmp, tag, disc):
+    """Indices of the sources gcc -fsyntax-only -std=c99 -pedantic-errors accepts.  All sources go
+    into one file (their file-scope names are disjoint); sources on whose lines gcc reports an
+    error are dropped and the rest is checked again."""
+    alive = list(range(len(sources)))
+    for _round in range(4):
+        if not alive:
+            return []
+        lines, owner = [], {}
+        for i in alive:
+            for ln in sources[i].rstrip("\n").split("\n"):
+                lines.append(ln)
+                owner[len(lines)] = i
+        path = os.path.join(tmp, "%s.c" % tag)
+        with open(path, "w") as f:
+            f.write("\n".join(lines) + "\n")
+        try:
+            p = subprocess.run(["gcc", "-fsyntax-only", "-std=c99", "-pedantic-errors", path],
+                               capture_output=True, text=True, timeout=300)
+        except subprocess.TimeoutExpired:
+            disc["gcc-timeout"] = disc.get("gcc-timeout", 0) + len(alive)
+            return []
+        finally:
+            try:
+                os.unlink(path)
+            except OSError:
+                pass
+        if p.returncode == 0:
+            return alive
+        bad = set()
+        for ln in p.stderr.split("\n"):
+            if ln.startswith(path + ":") and " error" in ln:
+                try:
+                    no = int(ln[len(path) + 1:].split(":")[0])
+                except ValueError:
+                    continue
+                if no in owner and owner[no] not in bad:
+                    bad.add(owner[no])
+                    k = "gcc-rejects: " + ln.split("error:")[1].strip()[:40].split("‘")[0]
+                    disc[k] = disc.get(k, 0) + 1
+        if not bad:
+            disc["gcc-unlocated-error"] = disc.get("gcc-unlocated-error", 0) + len(alive)
+            return []
+        alive = [i for i in alive if i not in bad]
+    disc["gcc-retries-exhausted"] = disc.get("gcc-retries-exhausted", 0) + len(alive)
+    return []
 
 
 def run_shard(spec):
@@ -161,13 +197,15 @@ def run_shard(spec):
     def bump(g, k, n=1):
         obs[g][k] = obs[g].get(k, 0) + n
 
+    tmp = os.environ.get("VERIF_TMP") or os.getcwd()
+    cases = []
     for i in range(spec["cases"]):
         cid = "%s/%s/%s" % (part, spec["shard"], i)
         r = rng(spec["seed"], PROPERTY, cid)
         opt = OPT_LEVELS[(i + spec["shard"]) % 4]
         target = "x86_64"
         if part == "c":
-            src, feats = cdeclgen.gen_program(r, gen_sw, cx_sw)
+            src, feats = cdeclgen.gen_program(r, gen_sw, cx_sw, prefix="q%d_" % i)
         elif part == "cx":
             it = cexprgen.gen_item(r, i, cx_sw)
             src, feats = it.decl + "\n", ["item:" + it.kind] + ["cx:" + op for op, _ in it.ops]
@@ -177,12 +215,13 @@ def run_shard(spec):
             src, feats = c28gen.gen_c3(r, gen_sw, target)
         else:
             src, feats = c28gen.gen_ir_text(r, gen_sw)
+        cases.append((cid, opt, target, src, feats))
+    if part in ("c", "cx"):
+        ok = set(gcc_valid_batch([c[3] for c in cases], tmp, "valid_%s_%s" % (part, spec["shard"]), disc))
+        cases = [c for k, c in enumerate(cases) if k in ok]
+
+    for i, (cid, opt, target, src, feats) in enumerate(cases):
         if part in ("c", "cx"):
-            ok, why = gcc_valid(src)
-            if not ok:
-                k = "gcc-rejects: " + why if ok is False else "gcc-timeout"
-                disc[k] = disc.get(k, 0) + 1
-                continue
             res = classify(lambda: cc(io.StringIO(src), x86, opt_level=opt))
         elif part == "c3":
             res = classify(lambda: c3c([io.StringIO(src)], [], arm if target == "arm" else x86, opt_level=opt))
